@@ -9,7 +9,9 @@ import subprocess
 import sys
 
 V = os.path.dirname(os.path.dirname(os.path.abspath(__file__)))
-EXTRA = {"C01_1": ["C07"], "C04_1": ["C16"], "C13_1": ["C08"], "C05_1": ["C01"], "C03_1": ["C05"], "C07_2p": ["C08"]}
+EXTRA = {"C01_1": ["C07"], "C04_1": ["C16"], "C13_1": ["C08"], "C05_1": ["C01"], "C03_1": ["C05"], "C07_2p": ["C08"],
+         "C03_3": ["C05"], "C05_3": ["C04", "C09"], "C16_3": ["C04"], "C08_3": ["C07"], "C01_3": ["C07"], "C07_3": ["C06"],
+         "C13_3": ["C17"], "C12_3": ["C10"], "C10_3": ["C12"]}
 
 
 def run(name):
